@@ -428,6 +428,44 @@ def specSlotDecfile (f : Fields) (impl : Fields) (implHead : String) : String :=
     | none => "FAIL silently-decoded-damaged-stream the implementation decoded a stream the strict RFC decoder rejects"
     | some pcm => if pcm == implPcm then "ok" else "FAIL damaged-stream-decoded-differently"
 
+/-! ### structural parser vs streaming decoder (C17) -/
+
+def minBytes (v : Nat) : Nat :=
+  if v < 2 ^ 7 then 1 else if v < 2 ^ 11 then 2 else if v < 2 ^ 16 then 3 else if v < 2 ^ 21 then 4
+  else if v < 2 ^ 26 then 5 else if v < 2 ^ 31 then 6 else 7
+
+def opStructcmp (f : Fields) (profile : Profile) : String :=
+  match hexToBytes (f.get "bytes") with
+  | none => "model-error bad-hex"
+  | some bytes =>
+    let si : Option SInfo :=
+      match parseNats (f.get "si") with
+      | [r, c, b, m] => some { rate := r, channels := c, bps := b, maxBlock := m }
+      | _ => none
+    let decS := match decodeFrame profile si bytes with
+      | .ok d => s!"dec=ok decpcm={joinInts (interleave d.channels)}"
+      | .error (.panic s) => "dec=PANIC:" ++ s
+      | .error e => "dec=err:" ++ errTag e
+    match parseFrame structLayout false si bytes with
+    | .error e => s!"ok struct=err:{errTag e} {decS}"
+    | .ok p =>
+      if !p.crc16ok then s!"ok struct=err:Crc16Mismatch {decS}" else
+      let fr := p.frame
+      let bs := fr.hdr.blockSize
+      let subs : List (Res (List Int)) := (List.zip fr.subs (List.range fr.subs.length)).map fun (sb, i) =>
+        decodeSub profile (subWidth fr.hdr.assign fr.hdr.bps i) bs sb
+      match subs.findSome? fun r => match r with | .error (.panic s) => some s | _ => none with
+      | some s => "panic " ++ s
+      | none =>
+        let exps : List (List Int) := subs.map fun r => match r with | .ok xs => xs | .error _ => []
+        let lensOk := exps.all fun xs => xs.length == bs
+        let canon : Frame := { fr with hdr := { fr.hdr with numberBytes := minBytes fr.hdr.number, reserved2 := false },
+                                        padding := fr.padding.map fun _ => false }
+        let chans := match recorrelate .release fr.hdr.assign fr.hdr.bps exps with | .ok c => c | .error _ => []
+        let n := (chans.map List.length).foldl min (chans.headD []).length
+        let inter := interleave (chans.map fun c => c.take n)
+        s!"ok struct=ok used={p.used} bs={bs} nsub={fr.subs.length} lens={",".intercalate (exps.map fun xs => toString xs.length)} lens_ok={lensOk} rewritten={bytesToHex canon.serialize} spcm={joinInts inter} {decS}"
+
 def runCase (line : String) : String :=
   let parts := line.splitOn "\t"
   let caseLine := parts.headD ""
@@ -439,6 +477,7 @@ def runCase (line : String) : String :=
   | "streamrw" => opStreamrw f impl implHead profile ++ " @@ -"
   | "encframe" => opEncframe f impl implHead profile
   | "hist" => opHist f ++ " @@ -"
+  | "structcmp" => opStructcmp f profile ++ " @@ -"
   | "decfile" => opDecfile f profile ++ " @@ " ++ specSlotDecfile f impl implHead
   | "wr" =>
     if implHead != "ok" || impl.get "file" == "" then "model-skip @@ -" else
@@ -461,7 +500,7 @@ def genValidCases (seed n : Nat) : List String := Id.run do
       let (m, r) := (genFrame true { rate := 44100, channels := 2, bps := 16, maxBlock := 65535 } false).run rng
       rng := r
       let bytes := Spec.serialize m.frame
-      out := s!"streamread bytes={bytesToHex bytes} exp={m.frame.hdr.rate}/{m.frame.hdr.assign.count}/{m.frame.hdr.bps}/{joinInts (interleave m.channels)} kind=valid" :: out
+      out := s!"streamread bytes={bytesToHex bytes} exp={m.frame.hdr.rate}/{m.frame.hdr.assign.count}/{m.frame.hdr.bps}/{joinInts (interleave m.channels)} kind=valid nummin={if m.frame.hdr.numberBytes == minNumberBytes m.frame.hdr.number then 1 else 0}" :: out
     else
       -- a file with STREAMINFO and 1-3 frames that may refer to it
       let ((si, nf, known), r) := (do
@@ -513,7 +552,7 @@ def genInvalidCases (seed n : Nat) : List String := Id.run do
       match got with
       | none => pure ()
       | some (fr, cls, must) =>
-        out := s!"streamread bytes={bytesToHex (Spec.serialize fr)} class={cls} expect={if must then "reject" else "any"} kind=invalid" :: out
+        out := s!"streamread bytes={bytesToHex (Spec.serialize fr)} class={cls} expect={if must then "reject" else "any"} kind=invalid nummin={if fr.hdr.numberBytes == minNumberBytes fr.hdr.number then 1 else 0}" :: out
     else
       let mut got2 : Option (SInfo × Frame × String × Bool) := none
       for _ in [0:8] do
